@@ -39,8 +39,11 @@
 //! `W` serial := 2^32-1 (the next update wraps to 0) · `N` notify · `S` client
 //! step · `C<k>` client step during which the connection dies after k PDUs of
 //! the response (an exchange that does NOT complete must not look completed).
+//! `M<k>:<S>` client step during which the source moves to set S on entry to
+//! the k-th call the server makes on it (state and data must be read together).
 //! Roots: 7 initial client states x client initial version {0,1,2} x proxy
-//! limit {0,1,2}. Both tiers run until the frontier is empty (fixpoint of the
+//! limit {0,1,2} x iteration order of the source's sets and diff steps
+//! (grouped by type / reverse / mixed; `PayloadSet` promises no order). Both tiers run until the frontier is empty (fixpoint of the
 //! canonical state space); the thorough tier has the larger space (two diff
 //! styles, 3 retained diffs, the answer-lower proxy, `X` events). A wall-clock
 //! safety net stops before a level that would not fit the budget; such a run
@@ -227,6 +230,51 @@ fn timing_of(set: u8) -> (u32, u32, u32) { if set % 2 == 0 { T_EVEN } else { T_O
 #[derive(Clone, Copy, Debug, PartialEq, Eq, Hash, PartialOrd, Ord)]
 enum Style { Net, Chained }
 
+/// The order in which the source's iterators yield their items. `PayloadSet`
+/// and `PayloadDiff` promise no order, so it is a dimension of "sets changing
+/// arbitrarily"; it is fixed per root. Inside a diff only re-orderings that
+/// leave the in-order, keyed-by-customer semantics untouched are used: the
+/// operations of one update step touch pairwise different keys, so they may
+/// be permuted freely; the steps of a chained diff stay in history order.
+#[derive(Clone, Copy, Debug, PartialEq, Eq, Hash, PartialOrd, Ord)]
+enum Order {
+    /// origins, router key, ASPA (types in the order the protocol got them);
+    /// diff operations in item order, announcements and withdrawals mixed
+    Grouped,
+    /// ASPA, router key, origins; in a diff all withdrawals of a step first
+    Reverse,
+    /// router key, v4 origin, ASPA(customer 1), v6 origin, ASPA(customer 2):
+    /// for version 0 and for version 1 an item the version cannot carry
+    /// precedes one it can; in a diff all announcements of a step first
+    Mixed,
+}
+
+const ORDERS: [Order; 3] = [Order::Grouped, Order::Reverse, Order::Mixed];
+
+impl Order {
+    fn name(self) -> &'static str { match self { Order::Grouped => "grouped", Order::Reverse => "reverse", Order::Mixed => "mixed" } }
+    fn rank(self, i: Item) -> u8 {
+        let g = UNIVERSE.iter().position(|x| *x == i).unwrap() as u8;
+        match self {
+            Order::Grouped => g,
+            Order::Reverse => 5 - g,
+            Order::Mixed => match i { Item::K => 0, Item::O4 => 1, Item::A1a => 2, Item::A1b => 3, Item::O6 => 4, Item::A2 => 5 },
+        }
+    }
+    fn sort_set(self, items: &mut Vec<Item>) { items.sort_by_key(|i| self.rank(*i)) }
+    /// Orders the operations of ONE update step (pairwise different keys).
+    fn sort_step(self, ops: &mut Vec<(Item, Action)>) {
+        ops.sort_by_key(|(i, a)| {
+            let major = match (self, a) {
+                (Order::Grouped, _) => 0,
+                (Order::Reverse, Action::Withdraw) | (Order::Mixed, Action::Announce) => 0,
+                _ => 1,
+            };
+            (major, self.rank(*i))
+        });
+    }
+}
+
 const SESSION0: u16 = 0x04D2;
 const RESTART_SERIAL: u32 = 1000;
 
@@ -242,6 +290,7 @@ struct SrcInner {
     /// 0 = serial far below the wrap, 1 = serial is 2^32-1, 2 = wrapped.
     epoch: u8,
     style: Style,
+    order: Order,
     /// longest retained diff chain
     cap: usize,
     collision: bool,
@@ -363,7 +412,7 @@ impl PayloadSource for Source {
         let mut s = self.0.lock().unwrap();
         s.tick("full");
         (State::from_parts(s.session, Serial(s.serial)),
-         SetIter { items: SETS[s.cur as usize].iter().map(|&i| item_payload(i)).collect(), pos: 0 })
+         SetIter { items: { let mut v = SETS[s.cur as usize].to_vec(); s.order.sort_set(&mut v); v.into_iter().map(item_payload).collect() }, pos: 0 })
     }
     fn diff(&self, state: State) -> Option<(State, DiffIter)> {
         let mut s = self.0.lock().unwrap();
@@ -375,8 +424,12 @@ impl PayloadSource for Source {
         path.push(s.cur);
         let mut ops: Vec<(Item, Action)> = Vec::new();
         match s.style {
-            Style::Net => ops = net_diff(path[0], s.cur),
-            Style::Chained => for w in path.windows(2) { ops.extend(net_diff(w[0], w[1])) },
+            Style::Net => { ops = net_diff(path[0], s.cur); s.order.sort_step(&mut ops); }
+            Style::Chained => for w in path.windows(2) {
+                let mut step = net_diff(w[0], w[1]);
+                s.order.sort_step(&mut step);
+                ops.extend(step);
+            },
         }
         Some((State::from_parts(s.session, Serial(s.serial)),
               DiffIter { items: ops.into_iter().map(|(i, a)| (item_payload(i), a)).collect(), pos: 0 }))
@@ -639,22 +692,23 @@ const ROOT_SETS: [u8; 3] = [6, 1, 7];
 const ROOT_SERIAL0: u32 = 100;
 
 #[derive(Clone, Copy, Debug, PartialEq, Eq, Hash, PartialOrd, Ord)]
-struct Cfg { civ: u8, limit: u8, mode: ProxyMode, style: Style, cap: u8, init: Init }
+struct Cfg { civ: u8, limit: u8, mode: ProxyMode, style: Style, cap: u8, order: Order, init: Init }
 
 impl Cfg {
     fn render(&self) -> String {
-        format!("civ={} limit={} proxy={} style={} cap={} init={}", self.civ, self.limit,
+        format!("civ={} limit={} proxy={} style={} cap={} order={} init={}", self.civ, self.limit,
             match self.mode { ProxyMode::ErrorReply => "error", ProxyMode::AnswerLower => "lower" },
-            match self.style { Style::Net => "net", Style::Chained => "chained" }, self.cap, self.init.name())
+            match self.style { Style::Net => "net", Style::Chained => "chained" }, self.cap, self.order.name(), self.init.name())
     }
     fn parse(s: &str) -> Option<(Cfg, Vec<Ev>)> {
-        let mut civ = None; let mut limit = None; let mut cap = Some(2u8); let mut mode = None; let mut style = None; let mut init = None; let mut hist = None;
+        let mut civ = None; let mut limit = None; let mut cap = Some(2u8); let mut order = Some(Order::Grouped); let mut mode = None; let mut style = None; let mut init = None; let mut hist = None;
         for tok in s.split_whitespace() {
             let (k, v) = tok.split_once('=')?;
             match k {
                 "civ" => civ = v.parse().ok(),
                 "limit" => limit = v.parse().ok(),
                 "cap" => cap = v.parse().ok(),
+                "order" => order = ORDERS.iter().copied().find(|o| o.name() == v),
                 "proxy" => mode = match v { "error" => Some(ProxyMode::ErrorReply), "lower" => Some(ProxyMode::AnswerLower), _ => None },
                 "style" => style = match v { "net" => Some(Style::Net), "chained" => Some(Style::Chained), _ => None },
                 "init" => init = INITS.iter().copied().find(|i| i.name() == v),
@@ -666,7 +720,7 @@ impl Cfg {
                 _ => return None,
             }
         }
-        Some((Cfg { civ: civ?, limit: limit?, mode: mode?, style: style?, cap: cap?, init: init? }, hist?))
+        Some((Cfg { civ: civ?, limit: limit?, mode: mode?, style: style?, cap: cap?, order: order?, init: init? }, hist?))
     }
 }
 
@@ -755,7 +809,8 @@ fn enabled(abs: &Abs, thorough: bool) -> Vec<Ev> {
     if abs.epoch == 0 { v.push(Ev::Wrap) }
     if abs.pending < MAX_PENDING_NOTIFY { v.push(Ev::Notify) }
     v.push(Ev::Step);
-    for k in CUTS { v.push(Ev::StepCut(k)) }
+    // (quick leaves out the third cut position to pay for the iteration-order roots)
+    for k in CUTS { if thorough || k <= 2 { v.push(Ev::StepCut(k)) } }
     // mid-step updates: target sets are everything / nothing (quick: two of
     // them) plus the ASPA-replacement and router-key singletons (thorough:
     // three of them); all 7 x 5 positions would triple the transition count
@@ -797,7 +852,8 @@ enum ConnK {
 /// Two histories with equal keys have the same futures, because everything
 /// that can influence a later exchange is in the key:
 ///
-/// * `cfg` — initial client version, proxy limit and mode, diff style (fixed
+/// * `cfg` — initial client version, proxy limit and mode, diff style,
+///   retained-chain cap and iteration order of the source (fixed
 ///   per run; the initial client state is NOT part of it: it only selects the
 ///   root, what it leaves behind is captured by `pos` and `data`).
 /// * source side: the real server connection keeps nothing between queries
@@ -826,7 +882,7 @@ enum ConnK {
 /// key is taken, so no half-read stream can hide behind a key.
 #[derive(Clone, Debug, PartialEq, Eq, Hash)]
 struct Key {
-    cfg: (u8, u8, ProxyMode, Style, u8),
+    cfg: (u8, u8, ProxyMode, Style, u8, Order),
     cur: u8,
     epoch: u8,
     pos: Pos,
@@ -929,7 +985,7 @@ fn initial_source(cfg: &Cfg) -> SrcInner {
     let mut s = SrcInner {
         session: SESSION0, serial: ROOT_SERIAL0 + 2, cur: ROOT_SETS[2],
         chain: if cfg.init == Init::TwoBehindNoDiffs { vec![ROOT_SETS[1]] } else { vec![ROOT_SETS[0], ROOT_SETS[1]] },
-        record: BTreeMap::new(), epoch: 0, style: cfg.style, cap: cfg.cap as usize, collision: false,
+        record: BTreeMap::new(), epoch: 0, style: cfg.style, order: cfg.order, cap: cfg.cap as usize, collision: false,
         armed: None, calls: 0, fired: None, timing_asked_in: None,
     };
     for (k, set) in ROOT_SETS.iter().enumerate() { s.record.insert((SESSION0, ROOT_SERIAL0 + k as u32), *set); }
@@ -999,7 +1055,7 @@ fn compute_key(cfg: &Cfg, src: &Source, conn: &Conn) -> (Key, Abs, Vec<String>) 
         ConnK::Established { query_version: q, answer_version: a, timing: conn.client.target().reported_timing }
     };
     let key = Key {
-        cfg: (cfg.civ, cfg.limit, cfg.mode, cfg.style, cfg.cap), cur: s.cur, epoch: s.epoch, pos,
+        cfg: (cfg.civ, cfg.limit, cfg.mode, cfg.style, cfg.cap, cfg.order), cur: s.cur, epoch: s.epoch, pos,
         data: conn.client.target().data.clone(), conn: connk, pending: pending.clone(),
     };
     let abs = Abs { cur: s.cur, chain_len: s.chain.len(), epoch: s.epoch, pending: pending.len() };
@@ -1240,6 +1296,7 @@ struct Stats {
     ok_by_pair: BTreeMap<String, u64>,
     downgrade_ok_by_pair: BTreeMap<String, u64>,
     negotiated: BTreeMap<String, u64>,
+    ok_by_order: BTreeMap<String, u64>,
     violating_transitions: u64,
     max_sim_ms: u64,
     odd_withdraws: u64,
@@ -1296,22 +1353,34 @@ fn main() {
     // ---- configurations ----
     // (diff style, longest retained diff chain). Net diffs depend only on the
     // two end points, so the longer chain is spent on the chained style.
-    let styles: Vec<(Style, u8)> = if thorough { vec![(Style::Chained, 3), (Style::Net, 2)] } else { vec![(Style::Chained, 2)] };
+    // Iteration order of the source: `None` = all three orders for every
+    // version configuration; `Some(off)` = one order per version configuration,
+    // (civ + 2*limit + off) mod 3 — every negotiated version 0 and 1 then still
+    // meets all three orders, version 2 (no filtering) is given all three.
+    let styles: Vec<(Style, u8, Option<u8>)> = if thorough {
+        vec![(Style::Chained, 2, None), (Style::Chained, 3, Some(1)), (Style::Net, 2, Some(2))]
+    } else { vec![(Style::Chained, 2, Some(1))] };
     let mut vconfigs: Vec<(u8, u8, ProxyMode)> = Vec::new();
     for civ in 0..=2u8 { for limit in 0..=2u8 { vconfigs.push((civ, limit, ProxyMode::ErrorReply)) } }
     if thorough { for civ in 0..=2u8 { for limit in 0..civ { vconfigs.push((civ, limit, ProxyMode::AnswerLower)) } } }
     let mut roots: Vec<Cfg> = Vec::new();
-    for &(style, cap) in &styles { for &(civ, limit, mode) in &vconfigs { for &init in &INITS {
-        roots.push(Cfg { civ, limit, mode, style, cap, init });
-    }}}
+    for &(style, cap, ord) in &styles { for &(civ, limit, mode) in &vconfigs {
+        let orders: Vec<Order> = match ord {
+            Some(off) if civ.min(limit) < 2 => vec![ORDERS[((civ + 2 * limit + off) % 3) as usize]],
+            _ => ORDERS.to_vec(),
+        };
+        for order in orders { for &init in &INITS {
+            roots.push(Cfg { civ, limit, mode, style, cap, order, init });
+        }}
+    }}
 
     let sp = ctx.space("rtr.histories",
-        "breadth-first over event histories {update(S) [thorough: + update_nodiff(S)] for the 7 other sets of an 8-set family, drop_diffs, restart, wrap, notify, client_step, client_step with the connection dying after 1/2/3 response PDUs, client_step with the source moving to another set (quick: 2 target sets, thorough: 3) on entry to the k-th source call of the exchange, k = 1..5} from every root (7 initial client states x client initial version 0..2 x proxy limit 0..2 [thorough: + answer-lower proxy where civ > limit] x diff style [thorough: chained with 3 retained diffs, net with 2; quick: chained with 2]), states de-duplicated by canonical key, every transition re-executed on the real Client and Server; oracles judge against the state named in End of Data, never against the source's latest state; timing is judged only when the source was asked for its timing while in that very state (the library reads timing in a separate call, so an update landing between data and timing leaves the clause undefined); non-trivial = transitions whose client step completed (Ok) AND changed the client's state or data (each (state, event) pair is executed once, so they are distinct by construction)");
+        "breadth-first over event histories {update(S) [thorough: + update_nodiff(S)] for the 7 other sets of an 8-set family, drop_diffs, restart, wrap, notify, client_step, client_step with the connection dying after 1/2/3 response PDUs, client_step with the source moving to another set (quick: 2 target sets, thorough: 3) on entry to the k-th source call of the exchange, k = 1..5} from every root (7 initial client states x client initial version 0..2 x proxy limit 0..2 [thorough: + answer-lower proxy where civ > limit] x diff style [thorough: chained with 2 and 3 retained diffs, net with 2; quick: chained with 2] x iteration order of the source's sets and diff steps {grouped by type, reverse, mixed so that an unsupported-type item precedes supported ones; withdraw-first / announce-first inside a diff step} [one order per version configuration chosen so that every negotiated version meets all three; thorough: full product for chained/2]), states de-duplicated by canonical key, every transition re-executed on the real Client and Server; oracles judge against the state named in End of Data, never against the source's latest state; timing is judged only when the source was asked for its timing while in that very state (the library reads timing in a separate call, so an update landing between data and timing leaves the clause undefined); non-trivial = transitions whose client step completed (Ok) AND changed the client's state or data (each (state, event) pair is executed once, so they are distinct by construction)");
 
     let start = WallInstant::now();
     let mut st = Stats { transitions: 0, executions: 0, nontrivial: 0, outcomes: BTreeMap::new(),
         transcripts: BTreeSet::new(), ok_by_pair: BTreeMap::new(), downgrade_ok_by_pair: BTreeMap::new(),
-        negotiated: BTreeMap::new(), violating_transitions: 0, max_sim_ms: 0, odd_withdraws: 0, odd_announces: 0 };
+        negotiated: BTreeMap::new(), ok_by_order: BTreeMap::new(), violating_transitions: 0, max_sim_ms: 0, odd_withdraws: 0, odd_announces: 0 };
     let mut seen: Seen = Seen::default();
     let mut frontier: Vec<Node> = Vec::new();
 
@@ -1388,7 +1457,10 @@ fn main() {
                     let pair = pair_name(&n.cfg);
                     bump(&mut st.ok_by_pair, &pair);
                     if s.downgraded { bump(&mut st.downgrade_ok_by_pair, &pair); }
-                    if let Some(v) = s.negotiated { bump(&mut st.negotiated, &format!("v{v}")); }
+                    if let Some(v) = s.negotiated {
+                        bump(&mut st.negotiated, &format!("v{v}"));
+                        bump(&mut st.ok_by_order, &format!("{}/v{v}", n.cfg.order.name()));
+                    }
                     if s.changed {
                         st.nontrivial += 1;
                         if st.nontrivial <= 3 { sp.sample_str(|| format!("{} => {}", witness(&n.cfg, &hist()), s.sample)); }
@@ -1439,7 +1511,7 @@ fn main() {
     let total_ok: u64 = st.ok_by_pair.values().sum();
     if total_ok == 0 { ctx.machinery_error("vacuous: no client step succeeded anywhere") }
     for &(civ, limit, mode) in &vconfigs {
-        let c = Cfg { civ, limit, mode, style: styles[0].0, cap: styles[0].1, init: Init::NoState };
+        let c = Cfg { civ, limit, mode, style: styles[0].0, cap: styles[0].1, order: Order::Grouped, init: Init::NoState };
         let p = pair_name(&c);
         if st.ok_by_pair.get(&p).copied().unwrap_or(0) == 0 {
             ctx.machinery_error(format!("vacuous: no client step succeeded for {p}"));
@@ -1464,7 +1536,11 @@ fn main() {
     sp.set("levels(depth,transitions,new_states)", json!(level_sizes));
     sp.set("roots", json!(roots.len()));
     sp.set("version_configs", json!(vconfigs.iter().map(|(c, l, m)| format!("{c}/{l}/{m:?}")).collect::<Vec<_>>()));
-    sp.set("diff_styles(style, retained chain)", json!(styles.iter().map(|s| format!("{:?}/{}", s.0, s.1)).collect::<Vec<_>>()));
+    sp.set("diff_styles(style, retained chain, orders)", json!(styles.iter().map(|s| format!("{:?}/{}/{}", s.0, s.1,
+        if s.2.is_none() { "all 3 iteration orders" } else { "1 iteration order per version configuration (all 3 at version 2)" })).collect::<Vec<_>>()));
+    sp.set("iteration_orders", json!({"grouped": "O4 O6 K A1 A2; diff steps in item order", "reverse": "A2 A1 K O6 O4; withdrawals of a step first",
+        "mixed": "K O4 A1 O6 A2; announcements of a step first"}));
+    sp.set("ok_steps_by_iteration_order_and_version", json!(st.ok_by_order));
     sp.set("events", json!(["U<S> update (diff retained)", "X<S> update (diff history dropped)", "D drop diffs", "R restart (new session)", "W serial := 2^32-1", "N notify", "S client step", "C<k> client step, connection dies after k PDUs of the response", "M<k>:<S> client step, source moves to set S on entry to the k-th call the server makes on it (ready/notify/full/diff/timing)"]));
     sp.set("bounds", json!({"pending_notifies": MAX_PENDING_NOTIFY, "connection_cut_after_pdus": CUTS, "mid_step_update_at_source_call": MID_CALLS, "simulated_horizon_s": HORIZON.as_secs()}));
     sp.set("distinct_outcomes(step transcripts)", json!(st.transcripts.len()));
